@@ -438,7 +438,7 @@ class Sim:
             nt = self.loop.next_timer()
             if nx is not None and (nt is None or nx <= nt):
                 # only deadline markers may fire; anything else waits for the lock
-                if self._ext[0].label == "deadline":
+                if self._ext[0].label in ("deadline", "inject-time"):
                     e = heapq.heappop(self._ext)
                     self.now = max(self.now, e.when)
                     return True
